@@ -89,17 +89,23 @@ Proof. exact ranges_scalar_ok. Qed.
 Print Assumptions C12_ranges_scalar.
 
 (* --- agreement with the ECMAScript grammar on the fragment ---
-   in_fragment u l (Regex/FragParser.v), a left-to-right scan of the units of l:
-     a backslash is followed by a unit other than a decimal digit and c k x u p P, and the escaped unit is skipped;
+   in_fragment u l (Regex/FragParser.v), a left-to-right scan of the units of l in the mode u:
+     a backslash is followed by a unit x, which is skipped, where x is not one of the digits 1-9 (back-references and legacy
+       octal escapes are outside the fragment); with u, x is not k, p or P (named references, property escapes); without u,
+       if x is 0 the unit after it is not a decimal digit (legacy octal);
      every other unit is any unit except an opening bracket `[` (no classes);
      every `(?<` is followed by `=` or `!` (look-behind; named groups are outside the fragment);
      where a `{` starts a syntactically complete `{n}` `{n,}` `{n,m}`, n and m are below 2^63.
    Pattern u (Regex/Grammar.v): the ES2022 grammar (22.2.1 + Annex B behind the u switch) and early errors of the fragment
    Disjunction, Alternative, Term (incl. Annex B QuantifiableAssertion Quantifier), Assertion ^ $ \b \B (?= (?! (?<= (?<!,
    Quantifier * + ? {n} {n,} {n,m} with lazy suffix (early error: n > m, on the unbounded values), Atom = PatternCharacter | . |
-   \ AtomEscape | ( ) | (?: ), AtomEscape = CharacterClassEscape d D s S w W | ControlEscape f n r t v | IdentityEscape[?U];
-   Annex B without u: ExtendedAtom with ExtendedPatternCharacter (so `]` `{` `}` are literals where no quantifier starts) and
-   InvalidBracedQuantifier (a braced quantifier with nothing to repeat is an early error); with u a lone `{` `}` `]` is no Pattern.
+   \ AtomEscape | ( ) | (?: ), AtomEscape = CharacterClassEscape d D s S w W | CharacterEscape, CharacterEscape = ControlEscape
+   f n r t v | c ControlLetter | 0 (not before a digit) | x HexDigit HexDigit | RegExpUnicodeEscapeSequence (uXXXX, with u also
+   surrogate pairs uD83D\uDE00 and u{CodePoint <= 10FFFF}) | IdentityEscape[?U];
+   Annex B without u: ExtendedAtom with ExtendedPatternCharacter (so `]` `{` `}` are literals where no quantifier starts),
+   InvalidBracedQuantifier (a braced quantifier with nothing to repeat is an early error), `\c` not before a letter (the backslash
+   is a literal), IdentityEscape = any unit but c -- tried after the other escapes, so `\x`, `\u` without their digits and `\k`,
+   `\p` are identity escapes; with u a lone `{` `}` `]` is no Pattern and these escapes are errors.
    The units are the ones the validator reads (code points with u, UTF-16 code units without).
    From any validator state, in both modes: the model accepts exactly the Patterns. *)
 Theorem C12_fragment_equiv : forall st s u, in_fragment u (visible_units s u) = true ->
@@ -124,7 +130,12 @@ Print Assumptions C12_recogniser_decides_grammar.
    ex_invalid_all = a STAR STAR, a lone open paren, ^ STAR, a quantified look-behind, \b STAR, \d STAR STAR, a{2,1}, {1}, a|{1,2},
    ^{3}, a{1}{2}, (?<=a){1} : neither Patterns nor accepted, in both modes;
    ex_big_in = a{9223372036854775807,9223372036854775806} is in the fragment and rejected by both;
-   ex_big_out = a{9223372036854775808,9223372036854775807} is not a Pattern and not in the fragment (bounds >= 2^63) *)
+   ex_big_out = a{9223372036854775808,9223372036854775807} is not a Pattern and not in the fragment (bounds >= 2^63);
+   ex_escapes_both = \0  \cJ  \x41  \u0041  \uD83D\uDE00  \uD83D  \uDE00  \n  \/  \x41{2}\cJ*\uD83D\uDE00+\0? : Patterns, accepted, both modes;
+   ex_escapes_annexb = \c  \c1  \c*  \x  \x4  \xg  \u  \u004  \u{110000}  \u{}  \u{41  \k  \p  \-  \_  \a  a\c : Patterns and accepted
+   without u; not Patterns with u, and rejected with u where in the fragment (\k, \p are outside it with u);
+   ex_code_points = \u{41}  \u{10FFFF}  \u{000000041}  \u{1F600}+ : Patterns and accepted with u;
+   ex_escapes_invalid = \c**  \x41**  (\u0041  \0{2,1} : neither Patterns nor accepted, both modes *)
 Example C12_fragment_example_valid : forall st u,
   in_fragment u ex_valid = true /\ Pattern u ex_valid /\ verdict_of (validate_pattern st ex_valid u) = VOk.
 Proof. intros st u. split; [exact (ex_valid_ok u)|split; [exact (ex_valid_pattern u) | exact (ex_valid_accepted st u)]]. Qed.
@@ -142,3 +153,16 @@ Example C12_fragment_example_big_bounds : forall st u,
   (in_fragment u ex_big_in = true /\ ~ Pattern u ex_big_in /\ verdict_of (validate_pattern st ex_big_in u) <> VOk) /\
   (in_fragment u ex_big_out = false /\ ~ Pattern u ex_big_out).
 Proof. exact ex_big_bounds. Qed.
+Example C12_fragment_example_escapes : forall st u l, In l ex_escapes_both ->
+  Pattern u (visible_units l u) /\ verdict_of (validate_pattern st l u) = VOk.
+Proof. exact ex_escapes_valid. Qed.
+Example C12_fragment_example_escapes_annexb : forall st l, In l ex_escapes_annexb ->
+  (Pattern false l /\ verdict_of (validate_pattern st l false) = VOk) /\
+  (~ Pattern true l /\ (in_fragment true l = true -> verdict_of (validate_pattern st l true) <> VOk)).
+Proof. exact ex_escapes_annexb_modes. Qed.
+Example C12_fragment_example_code_points : forall st l, In l ex_code_points ->
+  Pattern true l /\ verdict_of (validate_pattern st l true) = VOk.
+Proof. exact ex_code_points_valid. Qed.
+Example C12_fragment_example_escapes_invalid : forall st u l, In l ex_escapes_invalid ->
+  ~ Pattern u (visible_units l u) /\ verdict_of (validate_pattern st l u) <> VOk.
+Proof. exact ex_escapes_invalid_both. Qed.
